@@ -431,7 +431,7 @@ class P(Prop):
             "unary minus (parenthesised form and the bare positions: start, after =, ( and {, after + or -), redundant parentheses, the "
             "functions I D D2 ABS SQRT SUM AVG MIN MAX MEDIAN MAD STD and the ' shorthand; all trees of depth <= 2 (x lhs none/new/existing/"
             "coordinate), depth <= 3 over a small alphabet, random to depth 6; reflexive forms a+=e; vectors with 0, negatives, equal values, NaN; "
-            "tracks of 1..5 observations; optional spaces and ** for ^. Cases on which ordinary arithmetic gives no value (negative base with "
+            "tracks of 1..5 observations; optional spaces and ** for ^; entry point Track.operate(expr) or Track[expr]. Cases on which ordinary arithmetic gives no value (negative base with "
             "fractional exponent, 0 to a negative power, sqrt of a negative, |value| > 1e12) are not generated; a division by zero may yield NaN or "
             "ZeroDivisionError; aggregates of no valid value are unconstrained. Separate streams: the parser alone on printed strings (rpn), the "
             "rewriting functions and the parser on arbitrary strings (str, tie only), operator objects applied directly (op), strings outside the "
